@@ -286,6 +286,24 @@ func ruleC20(c *Ctx) {
 				st, why = unknown, "the entry send is not in the token loop"
 			}
 		}
+		if st == holds {
+			// nothing else may decide whether a decoded entry is delivered: a condition on what was decoded
+			// drops well-formed entries without a word
+			if des := callsIn(parse, "(*encoding/xml.Decoder).DecodeElement"); len(des) == 1 && len(des[0].Common().Args) >= 2 {
+				if al, isAl := des[0].Common().Args[1].(*ssa.MakeInterface); isAl {
+					ent := tb.T(al.X).String()
+					for _, a := range pc.atoms() {
+						as := a.Atom.String()
+						if as == okAtom || as == nameAtom {
+							continue
+						}
+						if strings.Contains(as, ent) || strings.Contains(as, "outparam[(*encoding/xml.Decoder).DecodeElement]") {
+							st, why = broken, "a decoded entry is delivered only under "+short(pathCondString([]condAtom{a}))+", a condition on what was decoded: an <entry> element for which it fails is dropped with neither an entry nor an error, so k entries in the document yield fewer than k"
+						}
+					}
+				}
+			}
+		}
 		c.judge(st, "GUARD", "entry send iff StartElement \"entry\"", s.Pos(), "sent under ok && Name.Local == \"entry\", once per token", why)
 		// the value sent was decoded by DecodeElement from that start element
 		de := callsIn(parse, "(*encoding/xml.Decoder).DecodeElement")
